@@ -264,6 +264,11 @@ def judge_case(r, T, prop):
     T.mvi["compared"] += 1
     nrs = len(lay_i)
     T.dist["rowsets=%d" % nrs] += 1
+    ops_ = field(c, "ops") or []
+    T.dist["history: inserts=%d" % sum(1 for o in ops_ if o[0] == "ins")] += 1
+    T.dist["history: deletes=%d" % sum(1 for o in ops_ if o[0] == "del")] += 1
+    T.dist["history: compactions=%d" % sum(1 for o in ops_ if o[0] == "compact")] += 1
+    T.dist["mode=" + ((field(c, "mode") or ["bg"])[0])] += 1
     if lay_i != lay_m:
         T.mvi["disagree"] += 1
         T.corr.append(("layout", "case %d: stored layout differs (memtable order / delete vectors): impl=%s model=%s" % (cid, lay_i, lay_m),
